@@ -7,7 +7,7 @@
    applied to parameter slice [bproj sp b] and data slice [bproj sd b]. *)
 From Coq Require Import Arith List.
 Import ListNotations.
-From GPV Require Import Base.LinAlg Models.C08_shape Proofs.C08_shape.
+From GPV Require Import Base.LinAlg Models.C08_shape Proofs.C08_shape Models.C08_diag Proofs.C08_diag.
 
 (* row-major ravel/unravel round trips, all ranks, all shapes *)
 Theorem c08_ravel_unravel :
@@ -93,6 +93,69 @@ Theorem c08_sum_mll_is_mean :
     cnt <> f0 -> fmul (sum_mll mlls args cnt) cnt = total (model_list mlls args).
 Proof. intros K A. exact (@sum_mll_is_mean K A). Qed.
 Print Assumptions c08_sum_mll_is_mean.
+
+(* rank of the broadcast batch *)
+Theorem c08_broadcast_length :
+  forall sp sd t, broadcast_shapes sp sd = Some t -> length t = Nat.max (length sp) (length sd).
+Proof. exact broadcast_length. Qed.
+Print Assumptions c08_broadcast_length.
+
+(* ---- Kernel.__call__(diag=True): shape of the result (Models/C08_diag.v).  Full statement wanted by the
+   property: for EVERY broadcastable (sp, sd), whatever forward returned (the diagonal t ++ [n] or the
+   full t ++ [n; n]), the call returns shape t ++ [n].  The code's test refutes it (recorded finding
+   C08-kernel-diag-batch-rank-heuristic; witness replayed on /repo by the driver's diag_n3 outputs): *)
+Theorem c08_kernel_diag_shape_refuted :
+  exists sp sd t n d, broadcast_shapes sp sd = Some t /\
+    call_diag_shape (t ++ [n]) (sd ++ [n; d]) n <> t ++ [n].
+Proof. exact diag_heuristic_refuted. Qed.
+Print Assumptions c08_kernel_diag_shape_refuted.
+(* it holds on the complement of the finding's guard: kernel batch rank <= input batch rank *)
+Theorem c08_kernel_diag_shape_partial :
+  forall sp sd t n d, broadcast_shapes sp sd = Some t -> length sp <= length sd ->
+    call_diag_shape (t ++ [n]) (sd ++ [n; d]) n = t ++ [n] /\
+    call_diag_shape (t ++ [n; n]) (sd ++ [n; d]) n = t ++ [n].
+Proof. exact call_diag_shape_partial. Qed.
+Print Assumptions c08_kernel_diag_shape_partial.
+(* the exact input class on which a correct diagonal is taken for a full matrix: the broadcast batch has
+   one dimension more than the inputs' batch and ends in n (this is the class the driver keys the finding by) *)
+Theorem c08_kernel_diag_collision_class :
+  forall t sd n d,
+    takes_diagonal (t ++ [n]) (sd ++ [n; d]) n = true <->
+    length t = S (length sd) /\ exists t', t = t' ++ [n].
+Proof. exact takes_diagonal_on_diag_iff. Qed.
+Print Assumptions c08_kernel_diag_collision_class.
+(* the test of the proposed patch (rank of the broadcast batch + 2) decides correctly for all shapes *)
+Theorem c08_kernel_diag_fixed_test :
+  forall t n, takes_diagonal_fixed (t ++ [n]) t n = false /\ takes_diagonal_fixed (t ++ [n; n]) t n = true.
+Proof. exact diag_heuristic_fixed. Qed.
+Print Assumptions c08_kernel_diag_fixed_test.
+
+(* ---- MultitaskGaussianLikelihood noise covariance: the code expands the likelihood's batch to the data
+   batch.  Tensor.expand succeeds exactly when the broadcast batch IS the data batch *)
+Theorem c08_expand_iff_broadcast_is_target :
+  forall sp sd, expands_to sp sd = true <-> broadcast_shapes sp sd = Some sd.
+Proof. exact expands_to_iff. Qed.
+Print Assumptions c08_expand_iff_broadcast_is_target.
+(* full statement wanted: mt_noise_batch sp sd = broadcast_shapes sp sd for all sp sd.  Refuted (recorded
+   finding C08-multitask-likelihood-param-batch): *)
+Theorem c08_multitask_noise_batch_refuted :
+  exists sp sd t, broadcast_shapes sp sd = Some t /\ mt_noise_batch sp sd = None.
+Proof. exact mt_noise_batch_refuted. Qed.
+Print Assumptions c08_multitask_noise_batch_refuted.
+(* holds on the complement (likelihood batch expandable to the data batch); never a WRONG shape; and the
+   failing class is exactly "broadcast batch <> data batch" (the class the driver keys the finding by) *)
+Theorem c08_multitask_noise_batch_partial :
+  forall sp sd, expands_to sp sd = true -> mt_noise_batch sp sd = broadcast_shapes sp sd.
+Proof. exact mt_noise_batch_partial. Qed.
+Print Assumptions c08_multitask_noise_batch_partial.
+Theorem c08_multitask_noise_batch_sound :
+  forall sp sd t, mt_noise_batch sp sd = Some t -> broadcast_shapes sp sd = Some t.
+Proof. exact mt_noise_batch_sound. Qed.
+Print Assumptions c08_multitask_noise_batch_sound.
+Theorem c08_multitask_noise_batch_fails_iff :
+  forall sp sd t, broadcast_shapes sp sd = Some t -> (mt_noise_batch sp sd = None <-> t <> sd).
+Proof. exact mt_noise_batch_fails_iff. Qed.
+Print Assumptions c08_multitask_noise_batch_fails_iff.
 
 (* non-vacuity: parameters of batch shape [2;1] against data of batch shape [3] *)
 Example ex_c08_broadcast :
